@@ -92,7 +92,7 @@ def events_for(ctx, rnd, t, i, wrap):
     elif k == "oneof":
         toks = [uncps(v) for v in t["valid"]]
         texts += toks + [toks[0].lower(), toks[0] + "X", "", " " + toks[0], "NOPE"]
-        vals += [{"t": "str", "s": cps(x)} for x in toks + ["NOPE", toks[0].lower()]]
+        vals += [{"t": "str", "s": cps(x)} for x in toks + ["NOPE", toks[0].lower(), "", " ", toks[0] + " "]]
         vals += [{"t": "int", "neg": False, "d": [7]}]
     elif k == "bool":
         texts += ["Y", "N", "y", "n", "YES", "1", "0", "True", " Y"]
